@@ -72,6 +72,9 @@ func (c *ServerConn) ServeOnce(storageClient StorageClient, stats *Stats) (err e
 		if e := recover(); e != nil {
 			logger.Errorf("mc panic(%#v), cmd %s, keys %v, stack: %s",
 				e, req.Cmd, req.Keys, utils.GetStack(2000))
+			if utils.VerifOn {
+				utils.Verif("p.panic", c.RemoteAddr, req.Cmd)
+			}
 		}
 		req.Clear()
 		if resp != nil {
@@ -79,6 +82,9 @@ func (c *ServerConn) ServeOnce(storageClient StorageClient, stats *Stats) (err e
 		}
 		if req.Working {
 			RL.Put(req)
+		}
+		if utils.VerifOn {
+			utils.Verif("p.done", c.RemoteAddr, req.Cmd)
 		}
 	}()
 
@@ -93,6 +99,9 @@ func (c *ServerConn) ServeOnce(storageClient StorageClient, stats *Stats) (err e
 	//    并设置好相应的 status 和 msg，在这里只是把处理后的结果返回给客户端即可。
 
 	err = req.Read(c.rbuf)
+	if utils.VerifOn {
+		utils.Verif("p.read", c.RemoteAddr, req.Cmd, req.Keys, err)
+	}
 	t := time.Now()
 	readTimeout := false
 
@@ -140,6 +149,9 @@ func (c *ServerConn) ServeOnce(storageClient StorageClient, stats *Stats) (err e
 		// process memcache commands, e.g. 'set', 'get', 'incr'.
 		req.SetStat("process")
 		resp, err = req.Process(storageClient, stats)
+		if utils.VerifOn {
+			utils.Verif("p.process", c.RemoteAddr, req.Cmd, resp != nil, err)
+		}
 		dt := time.Since(t)
 		if dt > SlowCmdTime {
 			atomic.AddInt64(&(stats.slow_cmd), 1)
@@ -172,6 +184,9 @@ func (c *ServerConn) ServeOnce(storageClient StorageClient, stats *Stats) (err e
 		}
 		if err = c.wbuf.Flush(); err != nil {
 			return
+		}
+		if utils.VerifOn {
+			utils.Verif("p.reply", c.RemoteAddr, req.Cmd, resp.Status)
 		}
 	}
 
